@@ -5,6 +5,7 @@ import (
 	"encoding/hex"
 	"encoding/json"
 	"fmt"
+	"strings"
 	"time"
 
 	"github.com/corestario/kyber/pairing"
@@ -345,6 +346,36 @@ func runSignScenario(w *World, tier string, prop string) (bool, interface{}) {
 				}
 			}
 		}
+		// C07 "do not prevent the signing of later batches": this batch is cancelled
+		// by the failure reports of n-t+1 machines (everybody answers promptly, nobody
+		// reaches t); the batches after it have to be signed as usual
+		cancelBatch := prop == "C07" && b+1 < nb && w.Tape.Bool(1, 5, "batchCancelledByFailures")
+		if cancelBatch {
+			for _, i := range perm {
+				fast[i] = true
+			}
+			k = n
+			failing := map[int]bool{}
+			for _, i := range perm[:n-t+1] {
+				failing[i] = true
+			}
+			for i, op := range c.Ops {
+				i := i
+				if failing[i] {
+					op.Tamper = func(o *types.Operation, result []byte) []byte {
+						if !o.IsSigningState() {
+							return result
+						}
+						if dd := w.Nodes[i].Dump(round); dd != nil {
+							if id, ok := dd.Payload.IDs[w.Nodes[i].Name]; ok {
+								return SignerErrorResult(o, id, "event_signing_partial_sign_error_received", "machine could not sign")
+							}
+						}
+						return result
+					}
+				}
+			}
+		}
 		before := len(c.Tr.Order)
 		proposer := perm[w.Tape.Choose(n, "proposer")]
 		// C07: a second participant, whose node has not yet read the first
@@ -352,7 +383,7 @@ func runSignScenario(w *World, tier string, prop string) (bool, interface{}) {
 		// refuses the latecomer (a batch is running); the running batch must
 		// still be reconstructed everywhere.
 		racer := -1
-		if prop == "C07" && w.Tape.Bool(1, 4, "racingProposal") {
+		if prop == "C07" && !cancelBatch && w.Tape.Bool(1, 4, "racingProposal") {
 			racer = perm[(indexOf(perm, proposer)+1+w.Tape.Choose(n-1, "racer"))%n]
 			c.L.PausedPoll[racer] = true
 		}
@@ -360,7 +391,7 @@ func runSignScenario(w *World, tier string, prop string) (bool, interface{}) {
 		// right after its proposal is out (and is not among the signers); the nodes
 		// that do keep polling must end up with the signatures all the same
 		stalled := -1
-		if prop == "C07" && !fast[proposer] && racer != proposer && n-1 >= t && w.Tape.Bool(1, 2, "proposerStalls") {
+		if prop == "C07" && !cancelBatch && !fast[proposer] && racer != proposer && n-1 >= t && w.Tape.Bool(1, 2, "proposerStalls") {
 			stalled = proposer
 		}
 		d := genBatch(c, round, proposer, b, prev, maxBaked)
@@ -401,6 +432,25 @@ func runSignScenario(w *World, tier string, prop string) (bool, interface{}) {
 			never[bi.BatchID] = slow
 		}
 		descs = append(descs, fmt.Sprintf("%s signers=%d rel=%d", d, k, relMode))
+		if cancelBatch {
+			gone := c.L.RunUntil(func() bool {
+				for _, i := range members {
+					st := w.Nodes[i].RoundState(round)
+					if !strings.Contains(st, "cancelled") && st != StIdle {
+						return false
+					}
+				}
+				return len(bi.Answered) >= t-1
+			}, stepCap)
+			for _, op := range c.Ops {
+				op.Tamper = nil
+			}
+			if gone {
+				w.Stats.Fault("batch-cancelled-by-error-reports")
+			}
+			descs = append(descs, fmt.Sprintf("cancelled by %d failure reports (%v)", n-t+1, gone))
+			continue
+		}
 		if po != nil && w.Tape.Bool(1, 2, "exportInFlight") {
 			// an export taken while this batch is in flight (some nodes have stored the
 			// proposal, nobody or not everybody has a signature yet)
